@@ -20,7 +20,8 @@ def test(wt, filt=""):
 
 def main():
     pid, x = sys.argv[1], sys.argv[2]
-    wt = "/tmp/mut/%s" % pid
+    rnd = sys.argv[3] if len(sys.argv) > 3 else ""          # e.g. "2": second round, worktrees under /tmp/mut2
+    wt = "/tmp/mut%s/%s" % (rnd, pid)
     src = os.path.join(wt, "out", x)
     meta = json.load(open(os.path.join(src, "meta.json")))
     sh("git checkout -- . && git clean -fdq src", wt)
@@ -57,7 +58,7 @@ def main():
     ok = res["demo_passes_without_change"] and res["demo_fails_with_change"] and res["suite_passes_with_change"]
     print(pid, x, "CONFIRMED" if ok else "NOT CONFIRMED", json.dumps(res))
     if ok:
-        dst = os.path.join(ROOT, "seeded", "%s-%s" % (pid.lower(), x.lower()))
+        dst = os.path.join(ROOT, "seeded", "%s-%s%s" % (pid.lower(), x.lower(), rnd))
         os.makedirs(dst, exist_ok=True)
         for f in ("patch.diff", "demo.diff"):
             shutil.copy(os.path.join(src, f), dst)
